@@ -1,0 +1,5 @@
+//! Facade for the BMP state machine stepper (`units::bmp_tcp_in` is
+//! crate-private). See `units/bmp_tcp_in/verif_hooks_sm.rs`.
+pub use crate::units::bmp_tcp_in::verif_hooks_sm::{
+    BmpStepper, PeerView, SmMetrics, StepOutcome,
+};
